@@ -1251,6 +1251,16 @@ impl Channel {
 
         let validator = self.validator();
 
+        if self.enforcement_state.channel_closed {
+            // a signature on the current holder commitment was released, it must never be revoked
+            policy_err!(
+                validator,
+                "policy-revoke-not-closed",
+                "cannot revoke holder commitment {} after the channel was closed",
+                new_current_commitment_number.saturating_sub(1),
+            );
+        }
+
         if self.enforcement_state.next_holder_commit_info.is_none() {
             // the caller failed to call validate_holder_commitment_tx
             policy_err!(
